@@ -2094,6 +2094,10 @@ def explore_c19(prop, pd, tier, rng, corpus_cases):
             kind, fault = 'stun', 'classic'
             pl = rng.choice([b'\x00\x01\x00\x00' + tid,
                              b'\x00\x01\x00\x08' + tid + b'\x00\x03\x00\x04' + struct.pack('>I', rng.choice([0, 2, 4, 6]))])
+            if gi in (0, 4, 8):
+                # deterministically: the change-port / change-both / plain request on every port of the list below (incl. 65535, where
+                # the rewritten port wraps)
+                pl = b'\x00\x01\x00\x08' + tid + b'\x00\x03\x00\x04' + struct.pack('>I', {0: 2, 4: 6, 8: 0}[gi])
         if gi % 4 == 1:
             # requests whose answer grows with the request (DNS: every question echoed + one record each): answer sizes around
             # 1232 / 1280 / 1452 / 1472 / 1500 bytes and far beyond
